@@ -427,7 +427,15 @@ def check_matrix(ctx, ES, M, ts, taumax, lag, cid, tm_s=None, lag_s=None):
     tsa = None if ts is None else np.asarray(ts, dtype=float)
     times = [_times(M[:, i], tsa) for i in range(N)]
     case = {"eventmatrix_T": M.T, "ts": ts, "taumax": taumax, "lag": lag}
-    ok, obj = ctx.call(ES, M, timestamps=tsa, taumax=tm_s, lag=lag_s)
+    # the event matrix in a representation a caller may hold it in (same
+    # zeros and ones: other integer / float type, Fortran order, strided
+    # view, read-only)
+    from pvm.gen.held import as_held
+    rh = ctx.rng("held", cid)
+    Mh = np.asarray(M).astype(str(rh.choice(["i8", "i8", "i1", "f8", "i4"])))
+    Mh, htag = as_held(rh, Mh, forms=("c", "c", "f", "view", "readonly"))
+    ctx.count("input_held_as:" + htag + ":" + Mh.dtype.name)
+    ok, obj = ctx.call(ES, Mh, timestamps=tsa, taumax=tm_s, lag=lag_s)
     if not ok:
         ctx.violation(f"EventSeries:{_tscls(ts)}:constructor-raises:"
                       f"{type(obj).__name__}", {**case, "exc": repr(obj)},
